@@ -1,24 +1,43 @@
 """C20 translator: regenerates coq/Gen/OptionTable.v from /repo's Python AST.
 
-Extracted (fail closed: any AST shape not listed here raises TranslateError):
+Two kinds of information are read from the source.
+
+DATA (the option table) - extracted, fail closed (TranslateError when a construct is not understood):
   * jug/options.py
       - add_common_options: every `<group>.add_argument(...)`
-      - parse: `parser.add_argument('--version', action='version', ...)`, `add_subparsers(dest=...)`,
-        `sub.required = True`, and what the `for sub in subparsers:` loop adds to every subparser
-      - load_default_options: every `opt.<name> = <constant>`
-      - read_configuration_file: the key naming and the coercion shape
+      - parse: `<parser>.add_argument('--version', action='version', ...)`, `add_subparsers(dest=...)`,
+        `<sub>.required = True`, and what the loop over the subparsers adds to every subparser
+      - load_default_options: every `<opt>.<name> = <constant expression>`
+  * jug/subcommands/*.py: every SubCommand subclass (name, parse, parse_defaults)
+  What is tolerated without changing the table (behaviour-preserving rewrites must not break the translation):
+      - constant expressions may use names: module-level names bound exactly once to a constant expression,
+        class-level ones (`self.X`, `Class.X`), local `name = <constant expression>` assignments;
+      - statements without effect on the table are skipped: docstrings, `pass`, imports, annotations,
+        `logging.*(...)` calls, local assignments that do not touch a parser (e.g. a help text kept in a variable);
+      - variables are matched by their BINDING (the parser is what `ArgumentParser(...)` was assigned to, the loop
+        variable is whatever the `for` binds, function parameters by position), never by their name.
+
+SHAPES (which of the modelled behaviours the code has) - recognised by pattern matching modulo renaming of local
+variables (`pmatch`), with the small sub-expressions that have many spellings evaluated symbolically:
+      - read_configuration_file: the key naming ('main' -> key, else section_key; any of "{0}_{1}".format / f-string /
+        % / + / '_'.join that builds the same string), the coercion
           `value = type(old_value)(value)`                                   -> CoerceByType
           `if <old_value is a bool>: value = _str_to_bool(value) else: ...`  -> CoerceBoolHelper
-      - _str_to_bool: the tuple of strings that mean False; key_to_option: '-' -> '_'
-      - read_configuration_file, the file that is read when none is passed: the list of candidate paths of
-          `for fp in [<'~/...' literals>]: fp = path.expanduser(fp); if path.exists(fp): <open it; on IOError no
-           configuration>; break  else: <no configuration>`  followed by one `config.read_file(fp)`
-        (the first existing candidate, only that one)                        -> rc_candidates
-  * jug/subcommands/*.py: every SubCommand subclass (name, parse, parse_defaults)
+      - _str_to_bool: the collection of strings that mean False; key_to_option: '-' -> '_'
+      - the file that is read when none is passed: `for a in <'~/...' paths>: b = path.expanduser(a);
+        if path.exists(b): <fp = open(b); on IOError no configuration>; break  else: <no configuration>` followed by
+        ONE `config.read_file(fp)` (the first existing candidate, only that one)   -> rc_candidates
+  A shape that is NOT recognised is not an error by itself: the table is then generated with the SPECIFIED shape
+  (`assumed` in table(); a comment in the generated file) and the differential cases of harness/c20.py - which run
+  the real code on every option, every boolean spelling, every naming, every subset of candidate files - decide
+  whether the code has it.  harness/c20.py records that as a translator obligation `ok: 'lenient'`.  A recognised
+  shape that differs from the specified one (e.g. CoerceByType) is still generated as it is and breaks the proofs.
 
 `table()` returns the same information as Python data for the harness (generators only)."""
 import ast
+import copy
 import os
+import string
 
 from . import core
 from .translate import extractor, parse, TranslateError
@@ -26,6 +45,10 @@ from .translate import extractor, parse, TranslateError
 ACTIONS = {'store': 'AStore', 'store_const': 'AStoreConst', 'store_true': 'AStoreTrue',
            'store_false': 'AStoreFalse', 'version': 'AVersion'}
 IGNORED_KW = {'help', 'metavar', 'version'}
+SPEC_FALSE_STRINGS = ['', '0', 'false', 'off']
+SPEC_CANDIDATES = ['~/.config/jug/jugrc', '~/.config/jugrc', '~/.jug/configrc']
+PARSER_METHODS = {'add_argument', 'set_defaults', 'add_argument_group', 'add_mutually_exclusive_group', 'add_parser',
+                  'add_subparsers', 'register'}
 
 
 # ----------------------------------------------------------------------------- small helpers
@@ -62,9 +85,79 @@ def coq_val(v):
     raise TranslateError('bad value descriptor %r' % (v,))
 
 
+def _src(node):
+    return ast.unparse(node)
+
+
+def _func(tree, name):
+    fs = [n for n in tree.body if isinstance(n, ast.FunctionDef) and n.name == name]
+    if len(fs) != 1:
+        raise TranslateError('expected exactly one top-level function %s' % name)
+    return fs[0]
+
+
+def _params(fn, n):
+    """Names of the n positional parameters of fn (nothing else allowed)."""
+    a = fn.args
+    if len(a.args) != n or a.vararg or a.kwarg or a.kwonlyargs or getattr(a, 'posonlyargs', []):
+        _err(fn, '%s: %d plain parameters expected' % (fn.name, n))
+    return [x.arg for x in a.args]
+
+
+def _is_docstring(st):
+    return isinstance(st, ast.Expr) and isinstance(st.value, ast.Constant)
+
+
+def _is_logging_call(st):
+    """`logging.<anything>(...)`"""
+    return (isinstance(st, ast.Expr) and isinstance(st.value, ast.Call) and isinstance(st.value.func, ast.Attribute)
+            and isinstance(st.value.func.value, ast.Name) and st.value.func.value.id == 'logging')
+
+
+def _names_in(node):
+    return {n.id for n in ast.walk(node) if isinstance(n, ast.Name)}
+
+
+def _no_effect(st, touch=()):
+    """A statement that cannot change the option table: docstring / bare constant, pass, import, bare annotation,
+    a logging call (in which none of the variables `touch` is passed to or called by anything)."""
+    if _is_docstring(st) or isinstance(st, (ast.Pass, ast.Import, ast.ImportFrom)):
+        return True
+    if isinstance(st, ast.AnnAssign) and st.value is None:
+        return True
+    if _is_logging_call(st):
+        # reading an attribute of a parser for the message is harmless; calling anything with it is not understood
+        inner = [n for n in ast.walk(st.value) if isinstance(n, ast.Call) and n is not st.value]
+        if not any(_names_in(c) & set(touch) for c in inner):
+            return True
+    return False
+
+
+def _method_call(node, method):
+    """node is `<Name>.<method>(...)` -> the Name's id, else None."""
+    if isinstance(node, ast.Call) and isinstance(node.func, ast.Attribute) and node.func.attr == method \
+            and isinstance(node.func.value, ast.Name):
+        return node.func.value.id
+    return None
+
+
+class _Normalise(ast.NodeTransformer):
+    """`x: T = e` -> `x = e`; `x: T` -> pass.  (Annotations have no effect on what is extracted.)"""
+    def visit_AnnAssign(self, node):
+        self.generic_visit(node)
+        if node.value is None:
+            return ast.copy_location(ast.Pass(), node)
+        return ast.copy_location(ast.Assign(targets=[node.target], value=node.value), node)
+
+
+def parse_normalised(rel):
+    return ast.fix_missing_locations(_Normalise().visit(parse(rel)))
+
+
+# ----------------------------------------------------------------------------- constant expressions
 def const_eval(node, env):
-    """Evaluate a constant expression: literals, names bound earlier in the same function,
-    + - * // on integers, unary minus, the empty list.  Returns a value descriptor."""
+    """Evaluate a constant expression: literals, names/attributes bound in `env`, + - * // on integers, unary minus,
+    the empty list, a tuple/list/set of string literals.  Returns a value descriptor."""
     if isinstance(node, ast.Constant):
         c = node.value
         if c is None:
@@ -83,9 +176,22 @@ def const_eval(node, env):
             return env[node.id]
         if node.id == 'print':
             return ('other', 'print')
-        _err(node, 'name %r is not bound to a constant earlier in the function' % node.id)
+        _err(node, 'name %r is not bound to a constant' % node.id)
+    if isinstance(node, ast.Attribute) and isinstance(node.value, ast.Name):
+        key = '%s.%s' % (node.value.id, node.attr)
+        if key in env:
+            return env[key]
+        _err(node, '%s is not bound to a constant' % key)
     if isinstance(node, ast.List) and not node.elts:
         return ('list', [])
+    if isinstance(node, (ast.Tuple, ast.List, ast.Set)):
+        out = []
+        for e in node.elts:
+            v = const_eval(e, env)
+            if v[0] != 'str':
+                _err(node, 'a collection of anything but strings is not modelled')
+            out.append(v[1])
+        return ('strs', out)
     if isinstance(node, ast.UnaryOp) and isinstance(node.op, ast.USub):
         v = const_eval(node.operand, env)
         if v[0] == 'int':
@@ -106,33 +212,193 @@ def const_eval(node, env):
     _err(node, 'unsupported expression %s' % ast.dump(node)[:80])
 
 
-def _func(tree, name):
-    fs = [n for n in tree.body if isinstance(n, ast.FunctionDef) and n.name == name]
-    if len(fs) != 1:
-        raise TranslateError('expected exactly one top-level function %s' % name)
-    return fs[0]
+def _bound_names_of_stmt(st):
+    """Names a statement binds in the scope it stands in (not descending into nested function/class bodies)."""
+    out = []
+    if isinstance(st, (ast.FunctionDef, ast.AsyncFunctionDef, ast.ClassDef)):
+        return [st.name]
+    if isinstance(st, (ast.Import, ast.ImportFrom)):
+        return [(a.asname or a.name).split('.')[0] for a in st.names]
+
+    def visit(n):
+        if isinstance(n, (ast.FunctionDef, ast.AsyncFunctionDef, ast.ClassDef, ast.Lambda)):
+            if not isinstance(n, ast.Lambda):
+                out.append(n.name)
+            return
+        if isinstance(n, (ast.Import, ast.ImportFrom)):
+            out.extend((a.asname or a.name).split('.')[0] for a in n.names)
+            return
+        if isinstance(n, ast.Name) and isinstance(n.ctx, (ast.Store, ast.Del)):
+            out.append(n.id)
+        if isinstance(n, ast.ExceptHandler) and n.name:
+            out.append(n.name)
+        for ch in ast.iter_child_nodes(n):
+            visit(ch)
+    visit(st)
+    return out
 
 
-def _is_docstring(st):
-    return isinstance(st, ast.Expr) and isinstance(st.value, ast.Constant) and isinstance(st.value.value, str)
+def scope_constants(body, whole, outer_env, prefixes=('',)):
+    """Names bound EXACTLY ONCE in the statement list `body` (a module or a class body), by a plain
+    `name = <constant expression>`, never declared `global`/`nonlocal` anywhere in `whole`, and - for collections -
+    never the object of an attribute access (`name.append(...)`).  -> {prefix + name: descriptor}"""
+    counts = {}
+    for st in body:
+        for n in _bound_names_of_stmt(st):
+            counts[n] = counts.get(n, 0) + 1
+    rebound = set()
+    for n in ast.walk(whole):
+        if isinstance(n, (ast.Global, ast.Nonlocal)):
+            rebound |= set(n.names)
+    attr_objects = {n.value.id for n in ast.walk(whole) if isinstance(n, ast.Attribute) and isinstance(n.value, ast.Name)}
+    env = dict(outer_env)
+    own = {}
+    for st in body:
+        if not (isinstance(st, ast.Assign) and len(st.targets) == 1 and isinstance(st.targets[0], ast.Name)):
+            continue
+        name = st.targets[0].id
+        if counts.get(name) != 1 or name in rebound:
+            continue
+        try:
+            v = const_eval(st.value, env)
+        except TranslateError:
+            continue
+        if v[0] in ('list', 'strs') and prefixes == ('',) and name in attr_objects:
+            continue
+        env[name] = v
+        own[name] = v
+    out = {}
+    for name, v in own.items():
+        for p in prefixes:
+            out[p + name] = v
+    return out
 
 
-def _method_call(node, method):
-    """node is `<Name>.<method>(...)` -> the Name's id, else None."""
-    if isinstance(node, ast.Call) and isinstance(node.func, ast.Attribute) and node.func.attr == method \
-            and isinstance(node.func.value, ast.Name):
-        return node.func.value.id
-    return None
+def module_env(tree):
+    return scope_constants(tree.body, tree, {})
+
+
+def class_env(cls, tree, menv, self_names):
+    """Class-level constants as `<self>.X` / `<Class>.X`; not those an instance attribute of the same name may shadow."""
+    assigned_attrs = {n.attr for n in ast.walk(cls) if isinstance(n, ast.Attribute) and isinstance(n.ctx, (ast.Store, ast.Del))}
+    env = scope_constants(cls.body, tree, menv, prefixes=tuple(s + '.' for s in self_names) + (cls.name + '.',))
+    return {k: v for k, v in env.items() if k.split('.', 1)[1] not in assigned_attrs}
+
+
+def function_env(fn, env):
+    """`env` as seen inside fn: parameters shadow outer names."""
+    shadow = {a.arg for a in fn.args.args + fn.args.kwonlyargs}
+    return {k: v for k, v in env.items() if '.' in k or k not in shadow}
+
+
+# ----------------------------------------------------------------------------- pattern matching modulo renaming
+def pmatch(p, n, b):
+    """Does AST `n` match pattern AST `p`?  In the pattern
+         V_x  matches a variable (a Name), the same one everywhere, different V_ for different variables;
+         W_x  likewise, but several W_ may be the same variable;
+         E_x  matches any expression (the same text everywhere).
+    Bindings are collected in the dict b."""
+    if isinstance(p, ast.Name) and p.id[:2] == 'E_':
+        if not isinstance(n, ast.expr):
+            return False
+        if p.id in b:
+            return ast.dump(b[p.id]) == ast.dump(n)
+        b[p.id] = n
+        return True
+    if isinstance(p, ast.Name) and p.id[:2] in ('V_', 'W_'):
+        if not isinstance(n, ast.Name):
+            return False
+        if p.id in b:
+            return b[p.id] == n.id
+        if p.id[:2] == 'V_' and any(v == n.id for k, v in b.items() if k[:2] in ('V_', 'W_')):
+            return False
+        if p.id[:2] == 'W_' and any(v == n.id for k, v in b.items() if k[:2] == 'V_'):
+            return False
+        b[p.id] = n.id
+        return True
+    if type(p) is not type(n):
+        return False
+    for f in p._fields:
+        if f in ('kind', 'type_comment', 'ctx'):
+            continue
+        pv, nv = getattr(p, f, None), getattr(n, f, None)
+        if isinstance(pv, list):
+            if not isinstance(nv, list) or len(pv) != len(nv):
+                return False
+            for x, y in zip(pv, nv):
+                if isinstance(x, ast.AST):
+                    if not (isinstance(y, ast.AST) and pmatch(x, y, b)):
+                        return False
+                elif x != y:
+                    return False
+        elif isinstance(pv, ast.AST):
+            if not (isinstance(nv, ast.AST) and pmatch(pv, nv, b)):
+                return False
+        elif pv != nv:
+            return False
+    return True
+
+
+def pat(src):
+    """Pattern statements from source text."""
+    return ast.parse(src).body
+
+
+def match_stmts(pattern_src, stmts, b):
+    ps = pat(pattern_src)
+    return len(ps) == len(stmts) and all(pmatch(p, s, b) for p, s in zip(ps, stmts))
+
+
+class _Strip(ast.NodeTransformer):
+    """Remove the statements without effect (docstrings, pass, imports, logging calls) from every block."""
+    def _block(self, stmts):
+        out = []
+        for st in stmts:
+            st = self.visit(st)
+            if st is not None and not _no_effect(st):
+                out.append(st)
+        return out
+
+    def generic_visit(self, node):
+        for f, v in ast.iter_fields(node):
+            if isinstance(v, list) and v and isinstance(v[0], ast.stmt):
+                new = self._block(v)
+                if not new and f == 'body':
+                    new = [ast.Pass()]
+                setattr(node, f, new)
+            elif isinstance(v, list):
+                setattr(node, f, [self.visit(x) if isinstance(x, ast.AST) else x for x in v])
+            elif isinstance(v, ast.AST):
+                setattr(node, f, self.visit(v))
+        return node
+
+
+def stripped(fn):
+    fn = _Strip().visit(copy.deepcopy(fn))
+    fn.body = [st for st in fn.body if not isinstance(st, ast.Pass)] or [ast.Pass()]
+    return fn
+
+
+def header(node):
+    """A compound statement without its blocks (for matching the head only)."""
+    h = copy.copy(node)
+    h.body = [ast.Pass()]
+    if hasattr(h, 'orelse'):
+        h.orelse = []
+    return h
 
 
 # ----------------------------------------------------------------------------- add_argument
-def read_add_argument(call, sub, mutex):
+def read_add_argument(call, sub, mutex, env):
     """One `x.add_argument(...)` call -> entry dict."""
     names = []
     for a in call.args:
-        if not (isinstance(a, ast.Constant) and isinstance(a.value, str)):
-            _err(call, 'add_argument: option strings must be string literals')
-        names.append(_check_ascii(a.value, a))
+        if isinstance(a, ast.Starred):
+            _err(call, 'add_argument(*args) is not understood')
+        v = const_eval(a, env)
+        if v[0] != 'str':
+            _err(call, 'add_argument: option strings must be strings')
+        names.append(v[1])
     if not names:
         _err(call, 'add_argument without a name')
     flags = [n for n in names if n.startswith('-')]
@@ -150,27 +416,27 @@ def read_add_argument(call, sub, mutex):
         if k not in known:
             _err(call, 'add_argument keyword %r is not understood' % k)
 
-    def lit(key, types):
-        n = kw[key]
-        if not (isinstance(n, ast.Constant) and isinstance(n.value, types)):
-            _err(n, 'add_argument %s= must be a literal' % key)
-        return n.value
+    def lit(key, kind):
+        v = const_eval(kw[key], env)
+        if v[0] != kind:
+            _err(kw[key], 'add_argument %s= must be a constant %s' % (key, kind))
+        return v[1]
 
-    action = lit('action', str) if 'action' in kw else 'store'
+    action = lit('action', 'str') if 'action' in kw else 'store'
     if action not in ACTIONS:
         _err(call, 'add_argument action %r is not modelled' % action)
     const = None
     if action == 'store_const':
         if 'const' not in kw:
             _err(call, 'store_const without const=')
-        const = const_eval(kw['const'], {})
+        const = const_eval(kw['const'], env)
         if const[0] not in ('none', 'bool', 'int', 'str'):
             _err(call, 'const= of an unsupported kind')
     elif 'const' in kw:
         _err(call, 'const= with action %r' % action)
     nargs = 'none'
     if 'nargs' in kw:
-        v = lit('nargs', str)
+        v = lit('nargs', 'str')
         if v not in ('?', '*'):
             _err(call, 'nargs=%r is not modelled' % v)
         nargs = v
@@ -181,25 +447,25 @@ def read_add_argument(call, sub, mutex):
     typ = 'str'
     if 'type' in kw:
         t = kw['type']
-        if not (isinstance(t, ast.Name) and t.id in ('int', 'str')):
+        if not (isinstance(t, ast.Name) and t.id in ('int', 'str') and t.id not in env):
             _err(t, 'type= must be int or str')
         typ = t.id
     if typ != 'str' and (action != 'store' or nargs == '*'):
         _err(call, 'type=int is only modelled for single-valued store arguments')
     default = None
     if 'default' in kw:
-        default = const_eval(kw['default'], {})
-        if default[0] == 'other':
+        default = const_eval(kw['default'], env)
+        if default[0] in ('other', 'strs'):
             _err(call, 'default= of an unsupported kind')
         if default[0] == 'list' and not (not flags and nargs == '*'):
             _err(call, 'list default is only modelled for a positional with nargs="*"')
     required = False
     if 'required' in kw:
-        required = lit('required', bool)
+        required = lit('required', 'bool')
         if not flags:
             _err(call, 'required= on a positional')
     if 'dest' in kw:
-        dest = _check_ascii(lit('dest', str))
+        dest = _check_ascii(lit('dest', 'str'))
         if not flags:
             _err(call, 'dest= on a positional')
     elif flags:
@@ -213,101 +479,159 @@ def read_add_argument(call, sub, mutex):
             'default': default, 'type': typ, 'required': required, 'mutex': mutex}
 
 
-def read_parser_body(stmts, parser_name, sub, mutex_base, allow_self_defaults):
-    """Statements of a function that receives an argparse parser/group `parser_name` and only
-    declares arguments on it.  Returns (entries, number of mutex groups used)."""
+def read_parser_body(stmts, parser_name, sub, mutex_base, env):
+    """Statements of a block that receives an argparse parser/group `parser_name` and only declares arguments on it.
+    Returns (entries, number of mutex groups used)."""
     groups = {parser_name: None}     # variable -> mutex id (None: plain parser / argument group)
+    env = dict(env)
     entries = []
     nmutex = 0
     for st in stmts:
-        if _is_docstring(st) or isinstance(st, ast.Pass):
+        if _no_effect(st, touch=groups):
             continue
-        if isinstance(st, ast.Assign) and len(st.targets) == 1 and isinstance(st.targets[0], ast.Name):
+        call = None
+        if isinstance(st, ast.Expr):
+            call = st.value
+        elif isinstance(st, ast.Assign) and len(st.targets) == 1 and isinstance(st.targets[0], ast.Name):
             tgt = st.targets[0].id
             v = st.value
-            if allow_self_defaults and isinstance(v, ast.Call) and isinstance(v.func, ast.Attribute) \
-                    and v.func.attr == 'parse_defaults' and isinstance(v.func.value, ast.Name) \
-                    and v.func.value.id == 'self' and not v.args and not v.keywords:
-                continue                       # `defaults = self.parse_defaults()` (used in help texts only)
             owner = _method_call(v, 'add_argument_group')
             if owner in groups:
                 groups[tgt] = groups[owner]
+                env.pop(tgt, None)
                 continue
             owner = _method_call(v, 'add_mutually_exclusive_group')
             if owner in groups and groups[owner] is None and not v.args and not v.keywords:
                 groups[tgt] = mutex_base + nmutex
                 nmutex += 1
+                env.pop(tgt, None)
                 continue
-            _err(st, 'unrecognised assignment in an argument declaration block')
-        if isinstance(st, ast.Expr):
-            owner = _method_call(st.value, 'add_argument')
-            if owner in groups:
-                entries.append(read_add_argument(st.value, sub, groups[owner]))
+            if tgt in groups:
+                _err(st, 'a parser variable is rebound')
+            if not (_names_in(v) & set(groups)):
+                # a local value that does not touch a parser: a constant (usable below) or something only a help text can use
+                try:
+                    env[tgt] = const_eval(v, env)
+                except TranslateError:
+                    env.pop(tgt, None)
                 continue
-        _err(st, 'unrecognised statement in an argument declaration block: %s' % ast.dump(st)[:80])
+            call = v                   # `x = group.add_argument(...)`
+            env.pop(tgt, None)
+        if call is not None and _method_call(call, 'add_argument') in groups:
+            entries.append(read_add_argument(call, sub, groups[_method_call(call, 'add_argument')], env))
+            continue
+        _err(st, 'unrecognised statement in an argument declaration block: %s' % _src(st)[:80])
     return entries, nmutex
 
 
-# ----------------------------------------------------------------------------- options.py
-def read_common(tree):
+# ----------------------------------------------------------------------------- options.py: data
+def read_common(tree, menv):
     f = _func(tree, 'add_common_options')
-    if [a.arg for a in f.args.args] != ['parser']:
-        raise TranslateError('add_common_options signature changed')
-    entries, nm = read_parser_body(f.body, 'parser', '', 0, False)
+    (parser,) = _params(f, 1)
+    entries, nm = read_parser_body(f.body, parser, '', 0, function_env(f, menv))
     if nm:
         raise TranslateError('mutually exclusive group among the common options is not modelled')
     return entries
 
 
-def read_parse(tree):
-    """options.parse: top-level arguments, subparser dest, per-subparser extras."""
+def read_parse(tree, menv):
+    """options.parse: top-level arguments, subparser dest, per-subparser extras.  The variables are identified by
+    what is assigned to them: P = ...ArgumentParser(...), S = P.add_subparsers(dest=...), S.required = True,
+    L = <anything>(S), `for v in L: add_common_options(v); v.add_argument(...)`."""
     f = _func(tree, 'parse')
+    env = function_env(f, menv)
     top, extras, subdest, required = [], [], None, False
+    P = S = L = None
     loop_seen = False
+    understood = []
     for st in f.body:
-        if isinstance(st, ast.Expr) and _method_call(st.value, 'add_argument') == 'parser':
-            e = read_add_argument(st.value, '', None)
+        if _no_effect(st):
+            understood.append(st)
+            continue
+        if isinstance(st, ast.Assign) and len(st.targets) == 1 and isinstance(st.targets[0], ast.Name) \
+                and isinstance(st.value, ast.Call):
+            tgt, v = st.targets[0].id, st.value
+            if _src(v.func) in ('argparse.ArgumentParser', 'ArgumentParser'):
+                if P is not None:
+                    _err(st, 'a second ArgumentParser')
+                P = tgt
+                understood.append(st)
+                continue
+            if P is not None and _method_call(v, 'add_subparsers') == P:
+                if S is not None:
+                    _err(st, 'a second add_subparsers')
+                for k in v.keywords:
+                    if k.arg == 'dest':
+                        d = const_eval(k.value, env)
+                        if d[0] != 'str':
+                            _err(st, 'add_subparsers dest must be a constant string')
+                        subdest = _check_ascii(d[1])
+                    elif k.arg not in ('help', 'title', 'description', 'metavar'):
+                        _err(st, 'add_subparsers keyword %r is not understood' % k.arg)
+                S = tgt
+                understood.append(st)
+                continue
+            if S is not None and L is None and len(v.args) == 1 and not v.keywords and isinstance(v.args[0], ast.Name) \
+                    and v.args[0].id == S and _src(v.func).endswith('get_subcommand_parsers'):
+                L = tgt
+                understood.append(st)
+                continue
+            if P is not None and _method_call(v, 'parse_args') == P:
+                understood.append(st)
+                continue
+        if isinstance(st, ast.Expr) and P is not None and _method_call(st.value, 'add_argument') == P:
+            e = read_add_argument(st.value, '', None, env)
             if e['action'] != 'version':
                 _err(st, 'main parser argument other than --version is not modelled')
             top.append(e)
-        elif isinstance(st, ast.Assign) and isinstance(st.value, ast.Call) and _method_call(st.value, 'add_subparsers') == 'parser':
-            for k in st.value.keywords:
-                if k.arg == 'dest':
-                    if not (isinstance(k.value, ast.Constant) and isinstance(k.value.value, str)):
-                        _err(st, 'add_subparsers dest must be a literal')
-                    subdest = _check_ascii(k.value.value)
-        elif isinstance(st, ast.Assign) and len(st.targets) == 1 and isinstance(st.targets[0], ast.Attribute) \
-                and st.targets[0].attr == 'required' and isinstance(st.value, ast.Constant):
-            required = st.value.value is True
-        elif isinstance(st, ast.For) and isinstance(st.iter, ast.Name) and st.iter.id == 'subparsers':
+            understood.append(st)
+            continue
+        if isinstance(st, ast.Assign) and len(st.targets) == 1 and isinstance(st.targets[0], ast.Attribute) \
+                and isinstance(st.targets[0].value, ast.Name) and st.targets[0].value.id == S and S is not None \
+                and st.targets[0].attr == 'required':
+            r = const_eval(st.value, env)
+            required = r == ('bool', True)
+            understood.append(st)
+            continue
+        if isinstance(st, ast.For) and L is not None and isinstance(st.iter, ast.Name) and st.iter.id == L:
             if loop_seen or not isinstance(st.target, ast.Name) or st.orelse:
                 _err(st, 'unexpected subparsers loop')
             loop_seen = True
             var = st.target.id
-            body = list(st.body)
+            body = [x for x in st.body if not _no_effect(x, touch=(var,))]
             if not (body and isinstance(body[0], ast.Expr) and isinstance(body[0].value, ast.Call)
                     and isinstance(body[0].value.func, ast.Name) and body[0].value.func.id == 'add_common_options'
-                    and len(body[0].value.args) == 1 and isinstance(body[0].value.args[0], ast.Name)
-                    and body[0].value.args[0].id == var):
-                _err(st, 'subparsers loop does not start with add_common_options(sub)')
-            extras, nm = read_parser_body(body[1:], var, '', 0, False)
+                    and len(body[0].value.args) == 1 and not body[0].value.keywords
+                    and isinstance(body[0].value.args[0], ast.Name) and body[0].value.args[0].id == var):
+                _err(st, 'subparsers loop does not start with add_common_options(<loop variable>)')
+            extras, nm = read_parser_body(body[1:], var, '', 0, env)
             if nm:
                 _err(st, 'mutex group in the subparsers loop')
+            understood.append(st)
+            continue
     if subdest is None or not required or not loop_seen:
         raise TranslateError('options.parse: add_subparsers(dest=...)/required/subparsers loop not found')
+    # nothing else may configure the parsers
+    mine = {x for x in (P, S, L) if x}
+    for st in f.body:
+        if any(st is u for u in understood):
+            continue
+        for n in ast.walk(st):
+            if isinstance(n, ast.Attribute) and isinstance(n.value, ast.Name) and n.value.id in mine and n.attr in PARSER_METHODS:
+                _err(st, 'options.parse configures a parser in a way that is not understood: %s' % _src(st)[:80])
     return top, extras, subdest
 
 
-def read_main_defaults(tree):
+def read_main_defaults(tree, menv):
     f = _func(tree, 'load_default_options')
-    if [a.arg for a in f.args.args] != ['opt']:
-        raise TranslateError('load_default_options signature changed')
+    (opt,) = _params(f, 1)
+    env = function_env(f, menv)
     out = []
     for st in f.body:
-        if _is_docstring(st) or isinstance(st, (ast.Import, ast.ImportFrom)):
+        if _no_effect(st, touch=(opt,)):
             continue
         if isinstance(st, ast.Assign) and len(st.targets) == 1 and isinstance(st.targets[0], ast.Attribute) \
-                and isinstance(st.targets[0].value, ast.Name) and st.targets[0].value.id == 'opt':
+                and isinstance(st.targets[0].value, ast.Name) and st.targets[0].value.id == opt:
             name = st.targets[0].attr
             if name == 'next':
                 v = st.value     # opt.next = cmdapi.default_options : the chain link, not an option
@@ -315,67 +639,187 @@ def read_main_defaults(tree):
                         and v.value.id == 'cmdapi':
                     continue
                 _err(st, 'opt.next is not cmdapi.default_options')
-            out.append((_check_ascii(name), const_eval(st.value, {})))
+            v = const_eval(st.value, env)
+            if v[0] == 'strs':
+                _err(st, 'a collection as default is not modelled')
+            out.append((_check_ascii(name), v))
+            continue
+        if isinstance(st, ast.Assign) and len(st.targets) == 1 and isinstance(st.targets[0], ast.Name) \
+                and st.targets[0].id != opt and opt not in _names_in(st.value):
+            env[st.targets[0].id] = const_eval(st.value, env)        # a local constant
             continue
         _err(st, 'unrecognised statement in load_default_options')
     return out
 
 
-def _is_bool_test(test):
-    """`type(old_value) == bool` / `type(old_value) is bool` / `isinstance(old_value, bool)`"""
-    if isinstance(test, ast.Compare) and len(test.ops) == 1 and isinstance(test.ops[0], (ast.Eq, ast.Is)):
-        l, r = test.left, test.comparators[0]
-        return (isinstance(l, ast.Call) and isinstance(l.func, ast.Name) and l.func.id == 'type' and len(l.args) == 1
-                and isinstance(l.args[0], ast.Name) and l.args[0].id == 'old_value'
-                and isinstance(r, ast.Name) and r.id == 'bool')
-    if isinstance(test, ast.Call) and isinstance(test.func, ast.Name) and test.func.id == 'isinstance' and len(test.args) == 2:
-        a, b = test.args
-        return isinstance(a, ast.Name) and a.id == 'old_value' and isinstance(b, ast.Name) and b.id == 'bool'
-    return False
+# ----------------------------------------------------------------------------- options.py: shapes
+def sym_string(node, kfun):
+    """Symbolic value of a string-building expression: a list of literal strings and ('K', variable) for
+    key_to_option(variable) - through f-strings, str.format with plain fields, % with plain %s, +, '<sep>'.join([...])."""
+    def lits(parts):
+        out = []
+        for p in parts:
+            if isinstance(p, str) and out and isinstance(out[-1], str):
+                out[-1] += p
+            elif p != '':
+                out.append(p)
+        return out
+
+    def go(n):
+        if isinstance(n, ast.Constant) and isinstance(n.value, str):
+            return [n.value]
+        if isinstance(n, ast.Call) and isinstance(n.func, ast.Name) and n.func.id == kfun and len(n.args) == 1 \
+                and not n.keywords and isinstance(n.args[0], ast.Name):
+            return [('K', n.args[0].id)]
+        if isinstance(n, ast.Call) and isinstance(n.func, ast.Attribute) and n.func.attr == 'replace' and not n.keywords \
+                and isinstance(n.func.value, ast.Name) and [_src(a) for a in n.args] == ["'-'", "'_'"]:
+            return [('K', n.func.value.id)]
+        if isinstance(n, ast.JoinedStr):
+            out = []
+            for v in n.values:
+                if isinstance(v, ast.FormattedValue):
+                    if v.conversion not in (-1, 115) or v.format_spec is not None:
+                        raise TranslateError('f-string conversion')
+                    out += go(v.value)
+                else:
+                    out += go(v)
+            return out
+        if isinstance(n, ast.Call) and isinstance(n.func, ast.Attribute) and n.func.attr == 'format' and not n.keywords \
+                and isinstance(n.func.value, ast.Constant) and isinstance(n.func.value.value, str):
+            args = [go(a) for a in n.args]
+            out, auto = [], 0
+            for text, field, spec, conv in string.Formatter().parse(n.func.value.value):
+                out.append(text)
+                if field is None:
+                    continue
+                if spec or conv not in (None, 's'):
+                    raise TranslateError('format spec')
+                if field == '':
+                    i, auto = auto, auto + 1
+                elif field.isdigit():
+                    i = int(field)
+                else:
+                    raise TranslateError('format field')
+                if i >= len(args):
+                    raise TranslateError('format index')
+                out += args[i]
+            return out
+        if isinstance(n, ast.BinOp) and isinstance(n.op, ast.Mod) and isinstance(n.left, ast.Constant) \
+                and isinstance(n.left.value, str):
+            args = [go(a) for a in (n.right.elts if isinstance(n.right, ast.Tuple) else [n.right])]
+            pieces = n.left.value.split('%s')
+            if any('%' in p for p in pieces) or len(pieces) != len(args) + 1:
+                raise TranslateError('% format')
+            out = [pieces[0]]
+            for a, p in zip(args, pieces[1:]):
+                out += a + [p]
+            return out
+        if isinstance(n, ast.BinOp) and isinstance(n.op, ast.Add):
+            return go(n.left) + go(n.right)
+        if isinstance(n, ast.Call) and isinstance(n.func, ast.Attribute) and n.func.attr == 'join' and not n.keywords \
+                and isinstance(n.func.value, ast.Constant) and isinstance(n.func.value.value, str) and len(n.args) == 1 \
+                and isinstance(n.args[0], (ast.List, ast.Tuple)):
+            out = []
+            for i, e in enumerate(n.args[0].elts):
+                if i:
+                    out.append(n.func.value.value)
+                out += go(e)
+            return out
+        raise TranslateError('string expression not understood: %s' % _src(n)[:60])
+    return lits(go(node))
 
 
-def _src(node):
-    return ast.unparse(node)
+BOOL_TESTS = ['type(V_old) == bool', 'type(V_old) is bool', 'isinstance(V_old, bool)', 'bool == type(V_old)',
+              'bool is type(V_old)']
 
 
 def read_coercion(tree):
-    f = _func(tree, 'read_configuration_file')
-    # the `for key, value in config.items(section):` loop
-    loops = [n for n in ast.walk(f) if isinstance(n, ast.For) and _src(n.iter) == 'config.items(section)']
-    if len(loops) != 1 or _src(loops[0].target) != '(key, value)':
-        raise TranslateError('read_configuration_file: the items loop is not recognised')
-    body = [st for st in loops[0].body if not (isinstance(st, ast.Expr) and _src(st.value).startswith('logging.'))]
+    """-> 'CoerceByType' | 'CoerceBoolHelper'; raises when the loop that turns configuration entries into attributes
+    (naming + coercion) is not recognised."""
+    f = stripped(_func(tree, 'read_configuration_file'))
+    outer = [n for n in f.body if isinstance(n, ast.For)]
+    b = {}
+    if not (len(outer) == 1 and not outer[0].orelse
+            and match_stmts('for V_section in V_config.sections():\n    pass', [header(outer[0])], b)
+            and len(outer[0].body) == 1 and isinstance(outer[0].body[0], ast.For) and not outer[0].body[0].orelse
+            and match_stmts('for (V_key, V_value) in V_config.items(V_section):\n    pass', [header(outer[0].body[0])], b)):
+        raise TranslateError('read_configuration_file: the loops over sections and items are not recognised')
+    body = outer[0].body[0].body
     if len(body) != 3:
         raise TranslateError('read_configuration_file: loop body has %d statements, expected 3' % len(body))
     naming, typing, store = body
-    want_naming = ("if section == 'main':\n    new_name = key_to_option(key)\nelse:\n"
-                   "    new_name = '{0}_{1}'.format(key_to_option(section), key_to_option(key))")
-    if _src(naming) != want_naming:
+    # --- naming
+    for shape_src in ("if V_section == 'main':\n    V_new = E_main\nelse:\n    V_new = E_other",
+                      "if 'main' == V_section:\n    V_new = E_main\nelse:\n    V_new = E_other",
+                      "if V_section != 'main':\n    V_new = E_other\nelse:\n    V_new = E_main"):
+        nb = dict(b)
+        if match_stmts(shape_src, [naming], nb):
+            b = nb
+            break
+    else:
         raise TranslateError('read_configuration_file: key naming is not the recognised shape')
-    if _src(store) != 'setattr(inifile, new_name, value)':
-        raise TranslateError('read_configuration_file: result is not stored with setattr(inifile, new_name, value)')
-    if not (isinstance(typing, ast.If) and _src(typing.test) == 'default_options is not None' and not typing.orelse
-            and len(typing.body) == 2 and _src(typing.body[0]) == 'old_value = getattr(default_options, new_name, None)'):
+    try:
+        main, other = sym_string(b['E_main'], 'key_to_option'), sym_string(b['E_other'], 'key_to_option')
+    except TranslateError as e:
+        raise TranslateError('read_configuration_file: key naming: %s' % e)
+    if main != [('K', b['V_key'])] or other != [('K', b['V_section']), '_', ('K', b['V_key'])]:
+        raise TranslateError('read_configuration_file: key naming builds %r / %r, not key / section_key' % (main, other))
+    # --- store
+    if not match_stmts('setattr(V_ini, V_new, V_value)', [store], b):
+        raise TranslateError('read_configuration_file: result is not stored with setattr(<result>, new_name, value)')
+    # --- coercion
+    if not (match_stmts('if V_defaults is not None:\n    pass', [header(typing)], b) and not typing.orelse and len(typing.body) == 2
+            and match_stmts('V_old = getattr(V_defaults, V_new, None)', [typing.body[0]], b)):
         raise TranslateError('read_configuration_file: default lookup is not the recognised shape')
     inner = typing.body[1]
-    if not (isinstance(inner, ast.If) and _src(inner.test) == 'old_value is not None' and not inner.orelse):
+    if not (match_stmts('if V_old is not None:\n    pass', [header(inner)], b) and not inner.orelse):
         raise TranslateError('read_configuration_file: `if old_value is not None` not found')
-    by_type = 'value = type(old_value)(value)'
-    stmts = inner.body
-    if len(stmts) == 1 and _src(stmts[0]) == by_type:
+    by_type = 'V_value = type(V_old)(V_value)'
+    if match_stmts(by_type, inner.body, dict(b)):
         return 'CoerceByType'
-    if len(stmts) == 1 and isinstance(stmts[0], ast.If) and _is_bool_test(stmts[0].test) \
-            and len(stmts[0].body) == 1 and _src(stmts[0].body[0]) == 'value = _str_to_bool(value)' \
-            and len(stmts[0].orelse) == 1 and _src(stmts[0].orelse[0]) == by_type:
-        return 'CoerceBoolHelper'
+    for t in BOOL_TESTS:
+        if match_stmts('if %s:\n    V_value = _str_to_bool(V_value)\nelse:\n    %s' % (t, by_type), inner.body, dict(b)):
+            return 'CoerceBoolHelper'
     raise TranslateError('read_configuration_file: coercion is neither `type(old_value)(value)` nor the '
                          '`_str_to_bool` shape: %s' % _src(inner)[:200])
 
 
-READER_SHAPE = [('inifile = Options(default_options)',), None,
-                ('config = configparser.RawConfigParser()', 'config = RawConfigParser()'),
-                ('config.read_file(fp)',), ('fp.close()',), None, ('return inifile',)]
+def read_false_strings(tree, menv):
+    f = stripped(_func(tree, '_str_to_bool'))
+    (s,) = _params(f, 1)
+    b = {}
+    if match_stmts('return V_s.lower() not in E_set', f.body, b) and b['V_s'] == s:
+        v = const_eval(b['E_set'], function_env(f, menv))
+        if v[0] == 'strs':
+            return [_check_ascii(x) for x in v[1]]
+    raise TranslateError('_str_to_bool is not `return s.lower() not in (<string constants>)`')
+
+
+def check_key_to_option(tree):
+    f = stripped(_func(tree, 'key_to_option'))
+    (s,) = _params(f, 1)
+    b = {}
+    if not (match_stmts("return V_s.replace('-', '_')", f.body, b) and b['V_s'] == s):
+        raise TranslateError("key_to_option is not `return s.replace('-', '_')`")
+
+
 OS_PATH = ('path', 'os.path')          # `from os import path` / `import os`
+OPEN_ERRORS = ('IOError', 'OSError', '(IOError, OSError)', '(OSError, IOError)', 'EnvironmentError')
+DISCOVERY = """
+if W_fp is None:
+    for W_a in E_list:
+        W_b = E_p1.expanduser(W_a)
+        if E_p2.exists(W_b):
+            try:
+                W_fp = open(W_b)
+            except E_exc:
+                return V_ini
+            break
+    else:
+        return V_ini
+"""
+READER = ['V_ini = Options(V_defaults)', None, 'V_config = E_ctor()', 'V_config.read_file(W_fp)', 'W_fp.close()', None,
+          'return V_ini']
 
 
 def _candidate_paths(strings, node=None):
@@ -390,158 +834,127 @@ def _candidate_paths(strings, node=None):
     return out
 
 
-def _is_import(st):
-    return isinstance(st, (ast.Import, ast.ImportFrom))
+def read_discovery(tree, menv):
+    """The candidate paths, in priority order, of which read_configuration_file reads the FIRST existing one (and
+    nothing else): the function is, modulo names / no-effect statements / spelling of os.path and of the error class,
 
-
-def _os_path_call(node, fn, arg):
-    """node is `path.<fn>(<arg>)` or `os.path.<fn>(<arg>)`"""
-    return (isinstance(node, ast.Call) and not node.keywords and len(node.args) == 1
-            and isinstance(node.args[0], ast.Name) and node.args[0].id == arg
-            and isinstance(node.func, ast.Attribute) and node.func.attr == fn and _src(node.func.value) in OS_PATH)
-
-
-def read_discovery(tree):
-    """The candidate paths, in priority order, of which read_configuration_file reads the FIRST existing one
-    (and nothing else):
-
+        inifile = Options(default_options)
         if fp is None:
-            for a in [<'~/...' literals>]:
-                b = path.expanduser(a)              # or os.path.expanduser; b may be a again
+            for a in <paths>:
+                b = path.expanduser(a)
                 if path.exists(b):
                     try:
                         fp = open(b)
-                    except IOError:                 # or OSError: no configuration at all
-                        return inifile
+                    except IOError:
+                        return inifile              # exists but cannot be opened: no configuration at all
                     break
             else:
-                return inifile
-        ... config.read_file(fp) ...                # one file is read
+                return inifile                      # none exists
+        config = configparser.RawConfigParser()
+        config.read_file(fp)                        # ONE file is read
+        fp.close()
+        for section in config.sections(): ...
+        return inifile
 
-    Any other shape of the function (e.g. one that reads several files) is not understood."""
-    f = _func(tree, 'read_configuration_file')
-    if [a.arg for a in f.args.args] != ['fp', 'default_options'] or f.args.vararg or f.args.kwarg or f.args.kwonlyargs:
-        raise TranslateError('read_configuration_file signature changed')
-    body = [st for st in f.body if not _is_docstring(st) and not _is_import(st)]
-    if len(body) != len(READER_SHAPE):
-        raise TranslateError('read_configuration_file: %d top-level statements, expected %d' % (len(body), len(READER_SHAPE)))
-    for st, want in zip(body, READER_SHAPE):
-        if want is not None and _src(st) not in want:
-            _err(st, 'read_configuration_file: statement %r where %r is expected' % (_src(st)[:60], want[0]))
-    disc, loop = body[1], body[5]
-    if not (isinstance(loop, ast.For) and _src(loop.target) == 'section' and _src(loop.iter) == 'config.sections()'
-            and not loop.orelse and len(loop.body) == 1 and isinstance(loop.body[0], ast.For)):
+    Any other shape (e.g. one that reads several files) is not recognised."""
+    f0 = _func(tree, 'read_configuration_file')
+    params = _params(f0, 2)
+    f = stripped(f0)
+    if len(f.body) != len(READER):
+        raise TranslateError('read_configuration_file: %d top-level statements, expected %d' % (len(f.body), len(READER)))
+    b = {}
+    for st, want in zip(f.body, READER):
+        if want is not None and not match_stmts(want, [st], b):
+            _err(st, 'read_configuration_file: statement %r where `%s` is expected' % (_src(st)[:60], want))
+    if _src(b['E_ctor']) not in ('configparser.RawConfigParser', 'RawConfigParser'):
+        raise TranslateError('read_configuration_file: the parser is not a RawConfigParser')
+    disc, loop = f.body[1], f.body[5]
+    if not (isinstance(loop, ast.For) and not loop.orelse
+            and match_stmts('for V_section in V_config.sections():\n    pass', [header(loop)], b)):
         _err(loop, 'read_configuration_file: the loop over config.sections() is not recognised')
-
-    def bad(node, why):
-        _err(node, 'read_configuration_file: the search for the configuration file is not "open the first candidate that '
-                   'exists, read only that one" (%s)' % why)
-    if not (isinstance(disc, ast.If) and _src(disc.test) == 'fp is None' and not disc.orelse):
-        bad(disc, '`if fp is None:` not found')
-    inner = [st for st in disc.body if not _is_import(st)]
-    if not (len(inner) == 1 and isinstance(inner[0], ast.For)):
-        bad(disc, 'one for loop expected')
-    loop = inner[0]
-    if not (isinstance(loop.target, ast.Name) and isinstance(loop.iter, (ast.List, ast.Tuple))
-            and all(isinstance(e, ast.Constant) and isinstance(e.value, str) for e in loop.iter.elts)):
-        bad(loop, 'the loop is not over a literal list of paths')
-    a = loop.target.id
-    if not (len(loop.orelse) == 1 and _src(loop.orelse[0]) == 'return inifile'):
-        bad(loop, 'no candidate exists: `return inifile` expected in the else branch')
-    if len(loop.body) != 2:
-        bad(loop, 'loop body')
-    expand, test = loop.body
-    if not (isinstance(expand, ast.Assign) and len(expand.targets) == 1 and isinstance(expand.targets[0], ast.Name)
-            and _os_path_call(expand.value, 'expanduser', a)):
-        bad(expand, 'expanduser')
-    b = expand.targets[0].id
-    if not (isinstance(test, ast.If) and not test.orelse and _os_path_call(test.test, 'exists', b) and len(test.body) == 2
-            and isinstance(test.body[1], ast.Break) and isinstance(test.body[0], ast.Try)):
-        bad(test, 'if exists: try ... ; break')
-    tr = test.body[0]
-    if not (len(tr.body) == 1 and _src(tr.body[0]) == 'fp = open(%s)' % b and not tr.orelse and not tr.finalbody
-            and len(tr.handlers) == 1 and tr.handlers[0].name is None and tr.handlers[0].type is not None
-            and _src(tr.handlers[0].type) in ('IOError', 'OSError', '(IOError, OSError)', '(OSError, IOError)')
-            and len(tr.handlers[0].body) == 1 and _src(tr.handlers[0].body[0]) == 'return inifile'):
-        bad(tr, 'try: fp = open(...) except IOError: return inifile')
-    return _candidate_paths([e.value for e in loop.iter.elts], loop.iter)
+    if not match_stmts(DISCOVERY, [disc], b):
+        _err(disc, 'read_configuration_file: the search for the configuration file is not "open the first candidate that '
+                   'exists, read only that one"')
+    if [b['W_fp'], b['V_defaults']] != params:
+        raise TranslateError('read_configuration_file: parameters are not (file, default options)')
+    if _src(b['E_p1']) not in OS_PATH or _src(b['E_p2']) not in OS_PATH or _src(b['E_exc']) not in OPEN_ERRORS:
+        raise TranslateError('read_configuration_file: expanduser/exists/IOError are not the ones of os.path')
+    v = const_eval(b['E_list'], function_env(f0, menv))
+    if v[0] != 'strs':
+        raise TranslateError('read_configuration_file: the candidates are not a constant collection of strings')
+    if isinstance(b['E_list'], ast.Set):
+        raise TranslateError('read_configuration_file: a set of candidates has no order')
+    return _candidate_paths(v[1], b['E_list'])
 
 
 def read_discovery_lenient(tree):
-    """Only for the failing-input search: every '~/...' string literal of read_configuration_file, in source order."""
+    """When the shape is not recognised: every '~/...' string literal of read_configuration_file (else of the module),
+    in source order; the documented list if there is none."""
+    def literals(nodes):
+        found = []
+        for st in nodes:
+            if _is_docstring(st):
+                continue
+            for n in ast.walk(st):
+                if isinstance(n, ast.Constant) and isinstance(n.value, str) and n.value.startswith('~/'):
+                    found.append((n.lineno, n.col_offset, n.value))
+        out = []
+        for _, _, v in sorted(found):
+            try:
+                _candidate_paths([v])
+            except TranslateError:
+                continue
+            if v not in out:
+                out.append(v)
+        return out
     try:
-        f = _func(tree, 'read_configuration_file')
+        out = literals(_func(tree, 'read_configuration_file').body)
     except TranslateError:
-        return []
-    found = []
-    for st in f.body:
-        if _is_docstring(st):
-            continue
-        for n in ast.walk(st):
-            if isinstance(n, ast.Constant) and isinstance(n.value, str) and n.value.startswith('~/'):
-                found.append((n.lineno, n.col_offset, n.value))
-    out = []
-    for _, _, v in sorted(found):
-        try:
-            _candidate_paths([v])
-        except TranslateError:
-            continue
-        if v not in out:
-            out.append(v)
-    return out
-
-
-def read_false_strings(tree):
-    f = _func(tree, '_str_to_bool')
-    body = [st for st in f.body if not _is_docstring(st)]
-    if len(body) == 1 and isinstance(body[0], ast.Return):
-        v = body[0].value
-        if isinstance(v, ast.Compare) and len(v.ops) == 1 and isinstance(v.ops[0], ast.NotIn) \
-                and _src(v.left) == 's.lower()' and isinstance(v.comparators[0], (ast.Tuple, ast.List, ast.Set)):
-            out = []
-            for e in v.comparators[0].elts:
-                if not (isinstance(e, ast.Constant) and isinstance(e.value, str)):
-                    _err(e, '_str_to_bool: non-literal in the set of false strings')
-                out.append(_check_ascii(e.value))
-            return out
-    raise TranslateError('_str_to_bool is not `return s.lower() not in (<literals>)`')
-
-
-def check_key_to_option(tree):
-    f = _func(tree, 'key_to_option')
-    body = [st for st in f.body if not _is_docstring(st)]
-    if not (len(body) == 1 and _src(body[0]) == "return s.replace('-', '_')"):
-        raise TranslateError("key_to_option is not `return s.replace('-', '_')`")
+        out = []
+    if not out:
+        out = literals([st for st in tree.body if not isinstance(st, (ast.FunctionDef, ast.ClassDef))])
+    return out or list(SPEC_CANDIDATES)
 
 
 # ----------------------------------------------------------------------------- subcommands
-def read_defaults_method(fn):
-    """parse_defaults: simple constant assignments, then `return {literal dict}` or
+def read_defaults_method(fn, env):
+    """parse_defaults: local constant assignments, then `return {literal dict}` or
     `name = {literal dict}; return name`."""
-    env = {}
+    env = function_env(fn, env)
     dicts = {}
     for st in fn.body:
-        if _is_docstring(st) or isinstance(st, ast.Pass):
+        if _no_effect(st):
             continue
         if isinstance(st, ast.Assign) and len(st.targets) == 1 and isinstance(st.targets[0], ast.Name):
+            tgt = st.targets[0].id
             if isinstance(st.value, ast.Dict):
-                dicts[st.targets[0].id] = st.value
+                dicts[tgt] = (st.value, dict(env))
+                env.pop(tgt, None)
             else:
-                env[st.targets[0].id] = const_eval(st.value, env)
+                dicts.pop(tgt, None)
+                env[tgt] = const_eval(st.value, env)
             continue
         if isinstance(st, ast.Return):
-            d = st.value
+            d, denv = st.value, env
             if isinstance(d, ast.Name) and d.id in dicts:
-                d = dicts[d.id]
+                d, denv = dicts[d.id]
             if d is None or (isinstance(d, ast.Constant) and d.value is None):
                 return []
             if not isinstance(d, ast.Dict):
                 _err(st, 'parse_defaults does not return a dict literal')
             out = []
             for k, v in zip(d.keys, d.values):
-                if not (isinstance(k, ast.Constant) and isinstance(k.value, str)):
-                    _err(st, 'parse_defaults key is not a string literal')
-                out.append((_check_ascii(k.value), const_eval(v, env)))
+                if k is None:
+                    _err(st, 'parse_defaults: **mapping in the dict literal')
+                kk = const_eval(k, denv)
+                if kk[0] != 'str':
+                    _err(st, 'parse_defaults key is not a constant string')
+                vv = const_eval(v, denv)
+                if vv[0] == 'strs':
+                    _err(st, 'a collection as default is not modelled')
+                out.append((_check_ascii(kk[1]), vv))
+            if len({k for k, _ in out}) != len(out):
+                _err(st, 'parse_defaults: a key twice')
             return out
         _err(st, 'unrecognised statement in parse_defaults')
     return []
@@ -557,7 +970,8 @@ def read_subcommands():
     for fname in sorted(os.listdir(d)):
         if not fname.endswith('.py') or fname == '__init__.py':
             continue
-        tree = parse(os.path.join('jug', 'subcommands', fname))
+        tree = parse_normalised(os.path.join('jug', 'subcommands', fname))
+        menv = module_env(tree)
         instantiated = set()
         for st in tree.body:
             if isinstance(st, ast.Assign) and isinstance(st.value, ast.Call) and isinstance(st.value.func, ast.Name) \
@@ -570,28 +984,31 @@ def read_subcommands():
                 continue
             if cls.name not in instantiated:
                 raise TranslateError('%s: SubCommand subclass %s is not instantiated at module level' % (fname, cls.name))
-            name = None
             p = pd = None
             for st in cls.body:
-                if isinstance(st, ast.Assign) and len(st.targets) == 1 and isinstance(st.targets[0], ast.Name) \
-                        and st.targets[0].id == 'name':
-                    if not (isinstance(st.value, ast.Constant) and isinstance(st.value.value, str)):
-                        _err(st, 'subcommand name is not a string literal')
-                    name = _check_ascii(st.value.value)
                 if isinstance(st, ast.FunctionDef) and st.name == 'parse':
                     p = st
                 if isinstance(st, ast.FunctionDef) and st.name == 'parse_defaults':
                     pd = st
-            if not name:
-                raise TranslateError('%s: %s has no literal name' % (fname, cls.name))
+            selfs = {m.args.args[0].arg for m in (p, pd) if m is not None and m.args.args}
+            cenv = dict(menv)
+            cenv.update(class_env(cls, tree, menv, sorted(selfs)))
+            names = [st for st in cls.body if isinstance(st, ast.Assign) and len(st.targets) == 1
+                     and isinstance(st.targets[0], ast.Name) and st.targets[0].id == 'name']
+            if len(names) != 1:
+                raise TranslateError('%s: %s has no (single) name' % (fname, cls.name))
+            nv = const_eval(names[0].value, menv)
+            if nv[0] != 'str' or not nv[1]:
+                _err(names[0], 'subcommand name is not a constant string')
+            name = _check_ascii(nv[1])
             if p is not None:
-                if [a.arg for a in p.args.args] != ['self', 'parser']:
-                    _err(p, 'parse signature is not (self, parser)')
-                es, nm = read_parser_body(p.body, 'parser', name, nmutex, True)
+                _, parser = _params(p, 2)
+                es, nm = read_parser_body(p.body, parser, name, nmutex, function_env(p, cenv))
                 nmutex += nm
                 entries.extend(es)
             if pd is not None:
-                ds = read_defaults_method(pd)
+                _params(pd, 1)
+                ds = read_defaults_method(pd, cenv)
                 defaults.extend(ds)
                 defaults_of[name] = [k for k, _ in ds]
             subs.append((name, fname[:-3]))
@@ -607,34 +1024,29 @@ def read_subcommands():
 # ----------------------------------------------------------------------------- assemble
 def table(lenient=False):
     """The option table as Python data (also used by the harness to generate command lines).
-    lenient=True (used only by the failing-input search of harness/c20.py after the strict translation failed):
-    the shape checks of the configuration-file reader do not abort; the table of options is still extracted."""
-    tree = parse(os.path.join('jug', 'options.py'))
-    common = read_common(tree)
-    top, extras, subdest = read_parse(tree)
-    main_defaults = read_main_defaults(tree)
-    if lenient:
+    The DATA is extracted strictly (TranslateError).  Each SHAPE that is not recognised is replaced by the specified
+    one and named in the list `assumed`: the differential cases of harness/c20.py then decide.  (`lenient` is kept
+    for callers of the earlier interface; the behaviour is the same.)"""
+    tree = parse_normalised(os.path.join('jug', 'options.py'))
+    menv = module_env(tree)
+    common = read_common(tree, menv)
+    top, extras, subdest = read_parse(tree, menv)
+    main_defaults = read_main_defaults(tree, menv)
+    assumed = []
+
+    def shape(what, fn, fallback):
         try:
-            coerce = read_coercion(tree)
-        except TranslateError:
-            coerce = None
-        try:
-            falses = read_false_strings(tree)
-        except TranslateError:
-            falses = []
-        try:
-            check_key_to_option(tree)
-        except TranslateError:
-            pass
-        try:
-            candidates = read_discovery(tree)
-        except TranslateError:
-            candidates = read_discovery_lenient(tree)
-    else:
-        coerce = read_coercion(tree)
-        falses = read_false_strings(tree)
-        check_key_to_option(tree)
-        candidates = read_discovery(tree)
+            return fn()
+        except TranslateError as e:
+            assumed.append('%s: %s' % (what, e))
+            return fallback()
+    coerce = shape('coercion of configuration values (assumed: _str_to_bool for booleans, else type(default)(value); '
+                   'names: key / section_key)', lambda: read_coercion(tree), lambda: 'CoerceBoolHelper')
+    falses = shape("_str_to_bool (assumed: '', '0', 'false', 'off' are false)", lambda: read_false_strings(tree, menv),
+                   lambda: list(SPEC_FALSE_STRINGS))
+    shape("key_to_option (assumed: '-' -> '_')", lambda: check_key_to_option(tree), lambda: None)
+    candidates = shape('which configuration file is read (assumed: the first existing candidate only)',
+                       lambda: read_discovery(tree, menv), lambda: read_discovery_lenient(tree))
     subs, specific, sub_defaults, defaults_of = read_subcommands()
     for e in common + extras + specific:
         if e['action'] == 'version':
@@ -642,7 +1054,7 @@ def table(lenient=False):
     return {'subcommands': sorted(n for n, _ in subs), 'modules': dict(subs), 'subdest': subdest, 'top': top,
             'specific': specific, 'common': common + extras, 'main_defaults': main_defaults,
             'sub_defaults': sub_defaults, 'defaults_of': defaults_of, 'coerce': coerce, 'false_strings': falses,
-            'rc_candidates': candidates}
+            'rc_candidates': candidates, 'assumed': assumed}
 
 
 def coq_entry(e):
@@ -667,23 +1079,26 @@ def _coq_list(items, indent='    '):
 @extractor('OptionTable.v')
 def option_table():
     t = table()
-    out = ['(* option table of jug/options.py and jug/subcommands/*.py (harness/translate_c20.py) *)',
-           'From Coq Require Import List ZArith Bool String.',
-           'From JugV Require Import Model.Options.',
-           'Import ListNotations.',
-           'Local Open Scope string_scope.',
-           '',
-           'Definition table : option_table := {|',
-           '  t_subcommands := [%s];' % '; '.join(coq_str(s) for s in t['subcommands']),
-           '  t_subdest := %s;' % coq_str(t['subdest']),
-           '  t_top := %s;' % _coq_list([coq_entry(e) for e in t['top']]),
-           '  t_specific := %s;' % _coq_list([coq_entry(e) for e in t['specific']]),
-           '  t_common := %s;' % _coq_list([coq_entry(e) for e in t['common']]),
-           '  t_main_defaults := %s;' % _coq_list(['(%s, %s)' % (coq_str(k), coq_val(v)) for k, v in t['main_defaults']]),
-           '  t_sub_defaults := %s;' % _coq_list(['(%s, %s)' % (coq_str(k), coq_val(v)) for k, v in t['sub_defaults']]),
-           '  t_coerce := %s;' % t['coerce'],
-           '  t_false_strings := [%s]' % '; '.join(coq_str(s) for s in t['false_strings']),
-           '|}.', '',
-           '(* read_configuration_file(None): the first of these that exists is read, only that one *)',
-           'Definition rc_candidates : list string := [%s].' % '; '.join(coq_str(s) for s in t['rc_candidates']), '']
+    out = ['(* option table of jug/options.py and jug/subcommands/*.py (harness/translate_c20.py) *)']
+    for a in t['assumed']:
+        out.append('(* SHAPE NOT RECOGNISED, the specified one is assumed and the differential cases decide - %s *)'
+                   % a.replace('(*', '( *').replace('*)', '* )').replace('"', "'"))
+    out += ['From Coq Require Import List ZArith Bool String.',
+            'From JugV Require Import Model.Options.',
+            'Import ListNotations.',
+            'Local Open Scope string_scope.',
+            '',
+            'Definition table : option_table := {|',
+            '  t_subcommands := [%s];' % '; '.join(coq_str(s) for s in t['subcommands']),
+            '  t_subdest := %s;' % coq_str(t['subdest']),
+            '  t_top := %s;' % _coq_list([coq_entry(e) for e in t['top']]),
+            '  t_specific := %s;' % _coq_list([coq_entry(e) for e in t['specific']]),
+            '  t_common := %s;' % _coq_list([coq_entry(e) for e in t['common']]),
+            '  t_main_defaults := %s;' % _coq_list(['(%s, %s)' % (coq_str(k), coq_val(v)) for k, v in t['main_defaults']]),
+            '  t_sub_defaults := %s;' % _coq_list(['(%s, %s)' % (coq_str(k), coq_val(v)) for k, v in t['sub_defaults']]),
+            '  t_coerce := %s;' % t['coerce'],
+            '  t_false_strings := [%s]' % '; '.join(coq_str(s) for s in t['false_strings']),
+            '|}.', '',
+            '(* read_configuration_file(None): the first of these that exists is read, only that one *)',
+            'Definition rc_candidates : list string := [%s].' % '; '.join(coq_str(s) for s in t['rc_candidates']), '']
     return '\n'.join(out)
